@@ -57,4 +57,5 @@ def cycle(theta):
 
 @builtin
 def random(min, max):
-    return py_random.randrange(min, max)
+    # Both ends are included: min <= n <= max.
+    return py_random.randint(min, max)
